@@ -145,10 +145,18 @@ func (p *Packer) Pack(src string, w io.Writer) (*Meta, error) {
 	// Track the metadata details as we go.
 	meta := &Meta{}
 
-	// A trailing separator would make Lstat follow a link, hiding it from the
-	// check below.
+	// Name the directory the way the operating system resolves the given path:
+	// links are followed wherever they stand in it, and a ".." after a link
+	// climbs from where the link leads. What is packed, and how links that point
+	// into the tree by an absolute path are judged, must not depend on the
+	// spelling. (If the path does not resolve, it is cleaned as text; a trailing
+	// separator would make Lstat follow a link, hiding it from the check below.)
 	if src != "" {
-		src = filepath.Clean(src)
+		if resolved, err := filepath.EvalSymlinks(src); err == nil {
+			src = resolved
+		} else {
+			src = filepath.Clean(src)
+		}
 	}
 
 	info, err := os.Lstat(src)
